@@ -41,9 +41,11 @@ ASSUMPTIONS = [
     "float measure positions fl(fl(i/n)+m) order exactly like the rationals m+i/n for m <= 100000, n <= 2000 (generator domain)",
     "times compared within 2^-40 relative + a forward error bound (k+2)*2^-49*(Mmax+1)*240000/min|bpm| of the double computation",
     "volume/pan are modelled and reported as a tag only: the property does not name them",
-    "tempos are 0 or 1e-3 <= |bpm| <= 1e6 (beyond that, offsets leave the int64 range of the item Series and pandas raises)",
+    "ordinary tempos are 0 or 1e-3 <= |bpm| <= 1e6; the rest of the float32 range (NaN, +-inf, subnormals, the largest and smallest normal numbers, -0.0) is generated as bit patterns: NaN/inf/large anywhere, subnormal/very small ones only in effect over a distance of exactly 0",
+    "a model time at or beyond 2^52 ms in magnitude puts the case outside the domain (tag beyond-2^52ms, not judged): from 2^64 ms on the int64 item Series of O2JHit/O2JHold raise ValueError inside pandas' setitem (find_result_type -> np.iinfo(object)); observed on the real code with a tempo of 1e-20 in effect over one measure",
 ]
-TRUSTED_EXTRA = ["model declines non-finite tempos (inf/NaN floats): outside the generator domain"]
+TRUSTED_EXTRA = ["files with a NaN / +-inf tempo are judged against Model.readFileX (the same reader over every float32; proved to refine "
+                 "Model.readFile wherever that one does not decline: readFileX_refines, and re-evaluated on every case: xrefines)"]
 
 E_BPMS = [50.0, 60.0, 75.0, 100.0, 120.0, 125.0, 128.0, 150.0, 160.0, 200.0, 240.0, 250.0, 300.0, 375.0, 37.5, 62.5, 93.75, 187.5,
           480.0, 600.0]
@@ -74,6 +76,25 @@ def sane_tempo(x):
     return is_f32(x) and (x == 0 or 1e-3 <= abs(x) <= 1e6)
 
 
+def is_bits(x):
+    """a float32 given by its bit pattern: {"bits": u32} (NaN, +-inf, subnormals, -0.0, the largest floats ... are not JSON numbers)"""
+    return isinstance(x, dict) and set(x) == {"bits"} and isinstance(x["bits"], int) and not isinstance(x["bits"], bool) \
+        and 0 <= x["bits"] < 2 ** 32
+
+
+def fval(x):
+    """the Python float of a tempo entry (a float, or a bit pattern)"""
+    return struct.unpack("<f", struct.pack("<I", x["bits"]))[0] if isinstance(x, dict) else x
+
+
+def pack_f(x):
+    return struct.pack("<I", x["bits"]) if isinstance(x, dict) else struct.pack("<f", x)
+
+
+def tempo_entry_ok(x):
+    return is_bits(x) or sane_tempo(x)
+
+
 # ------------------------------------------------------------------------------------------ bytes
 
 def _text(s, n):
@@ -83,7 +104,7 @@ def _text(s, n):
 
 def build_header(h, pkg_counts):
     b = struct.pack("<i", h["song_id"]) + _text(h["signature"], 4) + struct.pack("<f", h["encode_version"])
-    b += struct.pack("<i", h["genre"]) + struct.pack("<f", h["bpm"]) + struct.pack("<4h", *h["level"])
+    b += struct.pack("<i", h["genre"]) + pack_f(h["bpm"]) + struct.pack("<4h", *h["level"])
     b += struct.pack("<3i", *h["event_count"]) + struct.pack("<3i", *h["note_count"]) + struct.pack("<3i", *h["measure_count"])
     b += struct.pack("<3i", *pkg_counts)
     b += struct.pack("<hh", h["old_encode_version"], h["old_song_id"]) + _text(h["old_genre"], 20)
@@ -98,7 +119,7 @@ def build_header(h, pkg_counts):
 def build_pkg(p):
     ch = p["ch"]
     if ch in (0, 1):
-        ev = b"".join(struct.pack("<f", x) for x in p["ev"])
+        ev = b"".join(pack_f(x) for x in p["ev"])
     else:
         ev = b"".join(struct.pack("<hBB", e[0], e[1], e[2]) for e in p["ev"])
     n = p.get("n", len(p["ev"]))
@@ -127,6 +148,57 @@ def gen_bpm(rng, wide=False):
     if r < 0.9 or not wide:
         return f32(round(rng.uniform(30, 400), rng.choice([0, 1, 2, 5])))
     return f32(rng.choice([rng.uniform(5, 30), rng.uniform(400, 5000)]))
+
+
+NAN_BITS = [0x7FC00000, 0xFFC00000, 0x7F800001, 0x7FFFFFFF, 0xFF800001]
+INF_BITS = [0x7F800000, 0xFF800000]
+HUGE_BITS = [0x7F7FFFFF, 0xFF7FFFFF, 0x7F000000, 0x60000000]
+TINY_BITS = [0x00000001, 0x80000001, 0x007FFFFF, 0x807FFFFF, 0x00800000, 0x80800000, 0x00400000, 0x0D000000]
+
+
+def gen_special(rng, kinds=("nan", "inf", "huge")):
+    """a float32 outside the ordinary tempo range, as a bit pattern"""
+    k = rng.choice(kinds)
+    if k == "nan":
+        b = rng.choice(NAN_BITS + [0x7F800000 | rng.randrange(1, 2 ** 23) | (rng.randrange(2) << 31)])
+    elif k == "inf":
+        b = rng.choice(INF_BITS)
+    elif k == "huge":
+        b = rng.choice(HUGE_BITS + [(rng.randrange(2) << 31) | (rng.randrange(200, 255) << 23) | rng.randrange(2 ** 23)])
+    else:   # tiny: subnormal or a very small normal number
+        b = rng.choice(TINY_BITS + [(rng.randrange(2) << 31) | rng.randrange(1, 2 ** 23),
+                                    (rng.randrange(2) << 31) | (rng.randrange(1, 60) << 23) | rng.randrange(2 ** 23)])
+    return dict(bits=b)
+
+
+def add_specials(rng, level, hdr_holder=None):
+    """the whole float32 range as tempo values (class: every value struct.unpack can return, not only ordinary tempos).
+    NaN, +-inf and the largest floats go anywhere.  Subnormal / very small tempos are only put where they are in effect
+    over a zero distance (directly superseded at the same position by the next tempo package of the file, or after
+    everything else): in effect over any positive distance they give times beyond 2^64 ms, where pandas' int64 item
+    Series raises (ASSUMPTIONS)."""
+    meas = sorted({p["m"] for p in level}) or [0]
+    hi = max(meas)
+    for _ in range(rng.choice([1, 1, 2, 3])):
+        q = rng.random()
+        if q < 0.6:
+            n = rng.choice([1, 2, 4, 3])
+            ev = [0.0] * n
+            ev[rng.randrange(n)] = gen_special(rng)
+            if n > 1 and rng.random() < 0.3:
+                ev[rng.randrange(n)] = rng.choice([-0.0, gen_bpm(rng), gen_special(rng)])
+            level.insert(rng.randrange(len(level) + 1), dict(m=rng.choice(meas + [hi + 1, 0]), ch=1, ev=ev))
+        elif q < 0.8:   # tiny, superseded at the same position by the package that follows it in the file
+            m = rng.choice(meas + [hi + 1])
+            n = rng.choice([1, 2, 4])
+            k = rng.randrange(n)
+            a, b = [0.0] * n, [0.0] * n
+            a[k] = gen_special(rng, ("tiny",))
+            b[k] = rng.choice([gen_bpm(rng), gen_bpm(rng), gen_special(rng)])
+            level.append(dict(m=m, ch=1, ev=a))
+            level.append(dict(m=m, ch=1, ev=b))
+        else:           # tiny, after everything else
+            level.append(dict(m=hi + rng.choice([1, 2, 7]), ch=1, ev=[gen_special(rng, ("tiny",))]))
 
 
 def gen_text(rng, n):
@@ -318,6 +390,20 @@ def gen_file(rng, tier, small=False):
     ill = rng.random() < 0.07
     levels = [gen_level(rng, tier, well_formed=not (ill and rng.random() < 0.3), small=small) for _ in range(3)]
     case = dict(claim="read", hdr=hdr, levels=levels, tail=[rng.randrange(256) for _ in range(rng.choice([0, 0, 1, 7, 40]))])
+    if rng.random() < 0.14:
+        for l in levels:
+            if rng.random() < 0.6:
+                add_specials(rng, l)
+        q = rng.random()
+        if q < 0.3:
+            hdr["bpm"] = gen_special(rng)
+        elif q < 0.4:   # a subnormal / very small header tempo, superseded at position 0 in every difficulty that has anything to time
+            hdr["bpm"] = gen_special(rng, ("tiny",))
+            for l in levels:
+                l.insert(0, dict(m=0, ch=1, ev=[gen_bpm(rng)] + [0.0] * rng.choice([0, 1, 3])))
+                for p in l:
+                    if p["m"] < 0:
+                        p["m"] = 0
     if ill:
         k = rng.randrange(8)
         opts = {}
@@ -419,7 +505,31 @@ def corpus():
                                                                   dict(f=1, via="read_file_str")]))
     # the same file twice, then an ill-formed one, then the first again
     c.append(dict(claim="seq", files=[two, dict(two, opts=dict(cut=310))], steps=[dict(f=0), dict(f=0), dict(f=1), dict(f=0, levels=[1, 2, 0])]))
+    # ---- the whole float32 range as tempo values (bit patterns): what the reader does on NaN, +-inf, subnormals, -0.0
+    NAN, NNAN, INF, NINF = dict(bits=0x7FC00000), dict(bits=0xFFC00000), dict(bits=0x7F800000), dict(bits=0xFF800000)
+    SUB, NSUB, NZERO, FMAX = dict(bits=1), dict(bits=0x80000001), dict(bits=0x80000000), dict(bits=0x7F7FFFFF)
+    body = [dict(m=0, ch=2, ev=[H, Z, H, Z]), None, dict(m=2, ch=8, ev=[H, H, H]), dict(m=3, ch=1, ev=[240.0]),
+            dict(m=3, ch=3, ev=[HD, Z]), dict(m=4, ch=3, ev=[Z, TL])]
+    for ev in ([0.0, NAN], [NNAN], [0.0, INF], [NINF, 0.0], [FMAX], [NZERO, 60.0], [NZERO]):
+        c.append(dict(claim="read", hdr=_hdr(120.0), levels=[[dict(p) if p else dict(m=1, ch=1, ev=ev) for p in body], [], []], tail=[]))
+    for hb in (NAN, INF, NINF, FMAX):     # as header tempo (with and without tempo events)
+        c.append(dict(claim="read", hdr=_hdr(hb), levels=[[dict(p) if p else dict(m=1, ch=1, ev=[60.0]) for p in body],
+                                                          [dict(m=0, ch=2, ev=[H]), dict(m=1, ch=2, ev=[H])], []], tail=[]))
+    c.append(dict(claim="read", hdr=_hdr(NZERO), levels=[[dict(m=0, ch=2, ev=[H])], [], []], tail=[]))       # -0.0: ZeroDivisionError
+    # subnormal tempo: after everything; superseded at its own position; as header tempo superseded at position 0
+    c.append(dict(claim="read", hdr=_hdr(120.0), levels=[[dict(m=0, ch=2, ev=[H, H]), dict(m=5, ch=1, ev=[0.0, SUB])], [], []], tail=[]))
+    c.append(dict(claim="read", hdr=_hdr(120.0), levels=[[dict(m=0, ch=2, ev=[H, H]), dict(m=1, ch=1, ev=[NSUB]), dict(m=1, ch=1, ev=[90.0]),
+                                                          dict(m=2, ch=2, ev=[H])], [], []], tail=[]))
+    c.append(dict(claim="read", hdr=_hdr(SUB), levels=[[dict(m=0, ch=1, ev=[100.0, 0.0]), dict(m=0, ch=2, ev=[H, H]), dict(m=1, ch=2, ev=[H])],
+                                                       [], []], tail=[]))
+    # NaN before a long note's tail only: head finite, tail and length NaN; an inf tempo between two notes
+    c.append(dict(claim="read", hdr=_hdr(100.0), levels=[[dict(m=0, ch=2, ev=[HD]), dict(m=1, ch=1, ev=[NAN]), dict(m=2, ch=2, ev=[TL]),
+                                                          dict(m=2, ch=1, ev=[INF]), dict(m=3, ch=4, ev=[H, H])], [], []], tail=[],
+                  via="read_file_str"))
     c.append(dict(claim="f32", bits=0x42F00000))
+    c.append(dict(claim="f32", bits=0x80000000))
+    c.append(dict(claim="f32", bits=0x807FFFFF))
+    c.append(dict(claim="f32", bits=0xFF800000))
     c.append(dict(claim="f32", bits=0x7FC00000))
     c.append(dict(claim="f32", bits=0x00000001))
     c.append(dict(claim="int", bytes=[0, 0, 0, 128]))
@@ -467,7 +577,7 @@ def valid_file(case):
         for k, n in HDR_TEXT.items():
             if not isinstance(h[k], str) or len(h[k]) > n or any(ord(ch) > 255 for ch in h[k]):
                 return False
-        if not is_f32(h["encode_version"]) or not sane_tempo(h["bpm"]):
+        if not is_f32(h["encode_version"]) or not tempo_entry_ok(h["bpm"]):
             return False
         if len(case["levels"]) != 3:
             return False
@@ -481,7 +591,7 @@ def valid_file(case):
                     return False
                 for e in p["ev"]:
                     if p["ch"] in (0, 1):
-                        if not (sane_tempo(e) if p["ch"] == 1 else is_f32(e)):
+                        if not (tempo_entry_ok(e) if p["ch"] == 1 else (is_f32(e) or is_bits(e))):
                             return False
                     elif not (isinstance(e, list) and len(e) == 3 and all(isinstance(x, int) for x in e)
                               and -2 ** 15 <= e[0] < 2 ** 15 and 0 <= e[1] < 256 and 0 <= e[2] < 256):
@@ -624,10 +734,28 @@ def header_diff(hdr, jh):
     return bad
 
 
+def TV(x):
+    """a time of a model level: exact rational [num, den] -> float; "nan" (extended model) -> NaN"""
+    return float("nan") if x == "nan" else float(F(x))
+
+
+def BV(x):
+    """a tempo value of a model level: rational, or the extended model's {"inf": neg} / "nan" forms"""
+    if x == "nan":
+        return float("nan")
+    if isinstance(x, dict):
+        return -math.inf if x["inf"] else math.inf
+    return float(F(x))
+
+
 def tolerances(jlevel):
     """absolute tolerance for the times of one difficulty: DESIGN §3 (2^-40) plus a forward error bound of the
-    double computation: each of the k+1 segments contributes <= 2 ulp(Mmax) of measure error times 240000/bpm"""
-    bpms = [abs(float(F(b[1]))) for b in jlevel["bpms"] if F(b[1]) != 0]
+    double computation: each of the k+1 segments contributes <= 2 ulp(Mmax) of measure error times 240000/bpm.
+    Tempos that are not ordinary numbers do not enter: an infinite tempo contributes exactly 0, a NaN tempo makes
+    the time NaN (compared as such), and tempos below 1e-3 are only generated in effect over a distance of exactly 0,
+    where the product is exactly 0 (in effect over a positive distance they move the time beyond 2^52: `beyond`)."""
+    bv = [abs(BV(b[1])) for b in jlevel["bpms"]]
+    bpms = [b for b in bv if math.isfinite(b) and b >= 1e-3]
     k = len(jlevel["bpms"])
     pos = [float(F(x[0])) for x in jlevel["hits"]] + [float(F(x[1])) for x in jlevel["holds"]] + [float(F(b[0])) for b in jlevel["bpms"]]
     mmax = max([1.0] + [abs(p) for p in pos]) + 1.0
@@ -635,8 +763,27 @@ def tolerances(jlevel):
     return 2.0 ** -40 + (k + 2) * 2.0 ** -49 * mmax * 240000.0 / bmin
 
 
+def beyond(jlevels):
+    """some time of the model output is at or beyond 2^52 ms in magnitude (142 000 years): doubles are integers there and
+    from 2^64 on pandas' int64 item Series raise inside the item setters - outside the domain (ASSUMPTIONS)"""
+    lim = 2.0 ** 52
+    for jl in jlevels:
+        ts = [TV(x[4]) for x in jl["hits"]] + [TV(x[5]) for x in jl["holds"]] + [TV(b[2]) for b in jl["bpms"]]
+        ts += [TV(x[6]) for x in jl["holds"] if x[6] is not None]
+        if any(abs(t) >= lim for t in ts if not math.isnan(t)):
+            return True
+    return False
+
+
 def near(a, b, atol):
+    if math.isnan(a) or math.isnan(b):
+        return math.isnan(a) and math.isnan(b)
     return abs(a - b) <= atol + 2.0 ** -40 * max(abs(a), abs(b))
+
+
+def same_val(a, b):
+    """tempo values: equal as floats, NaN = NaN"""
+    return (math.isnan(a) and math.isnan(b)) or a == b
 
 
 def match_multiset(impl, ref, same):
@@ -660,12 +807,14 @@ def level_diff(impl, jl):
     """which lists of one difficulty differ between the implementation and a model/spec level (json).
     returns (bad list, volpan_mismatch, maxdev)"""
     atol = tolerances(jl)
-    ref_hits = [(float(F(x[4])), int(x[1]), int(x[2]), int(x[3])) for x in jl["hits"]]
-    ref_holds = [(float(F(x[5])), int(x[2]), float(F(x[6])), int(x[3]), int(x[4])) for x in jl["holds"]]
-    ref_bpms = [(float(F(b[2])), float(F(b[1]))) for b in jl["bpms"]]
+    ref_hits = [(TV(x[4]), int(x[1]), int(x[2]), int(x[3])) for x in jl["hits"]]
+    ref_holds = [(TV(x[5]), int(x[2]), TV(x[6]), int(x[3]), int(x[4])) for x in jl["holds"]]
+    ref_bpms = [(TV(b[2]), BV(b[1])) for b in jl["bpms"]]
 
     def same_hold(a, b):
         # a length is the difference of two times: twice the absolute tolerance, relative part on the larger operand
+        if math.isnan(a[2]) or math.isnan(b[2]):
+            return a[1] == b[1] and near(a[0], b[0], atol) and math.isnan(a[2]) and math.isnan(b[2])
         return (a[1] == b[1] and near(a[0], b[0], atol)
                 and abs(a[2] - b[2]) <= 2 * atol + 2.0 ** -39 * (abs(b[0]) + abs(b[2])))
     bad = []
@@ -673,7 +822,7 @@ def level_diff(impl, jl):
         bad.append("hits")
     if not match_multiset(impl["holds"], ref_holds, same_hold):
         bad.append("holds")
-    if not match_multiset(impl["bpms"], ref_bpms, lambda a, b: a[1] == b[1] and near(a[0], b[0], atol)):
+    if not match_multiset(impl["bpms"], ref_bpms, lambda a, b: same_val(a[1], b[1]) and near(a[0], b[0], atol)):
         bad.append("bpms")
     vp = False
     if not bad:
@@ -681,11 +830,12 @@ def level_diff(impl, jl):
                   and match_multiset(impl["holds"], ref_holds, lambda a, b: (a[1], a[3], a[4]) == (b[1], b[3], b[4]) and near(a[0], b[0], atol)))
     dv = 0.0
     if not bad:
-        for a, b in zip(sorted(impl["hits"]), sorted(ref_hits)):
+        fin = lambda l, i: sorted(x for x in l if not math.isnan(x[i]) and not any(isinstance(y, float) and math.isnan(y) for y in x))
+        for a, b in zip(fin(impl["hits"], 0), fin(ref_hits, 0)):
             dv = max(dv, abs(a[0] - b[0]))
-        for a, b in zip(sorted(impl["bpms"]), sorted(ref_bpms)):
+        for a, b in zip(fin(impl["bpms"], 0), fin(ref_bpms, 0)):
             dv = max(dv, abs(a[0] - b[0]))
-        for a, b in zip(sorted(impl["holds"]), sorted(ref_holds)):
+        for a, b in zip(fin(impl["holds"], 2), fin(ref_holds, 2)):
             dv = max(dv, abs(a[2] - b[2]))
     return bad, vp, dv
 
@@ -732,9 +882,19 @@ def judge(impl, r):
     wf = dom
     # ---- correspondence: implementation vs model
     agree = True
+    if not r.get("xrefines", False):
+        # the extended model (every float32) must be the rational model wherever that one does not decline
+        agree = False
+        detail["xrefines"] = "Model.readFileX differs from Model.readFile on a byte string the latter does not decline"
     if "err" in model and model["err"] == "nonfinite":
-        tags.append("model-declines-nonfinite")
-    elif impl[0] == "err":
+        # a NaN / +-inf tempo: the rational model (the one the theorems speak about) declines, the extended model
+        # `readFileX` (same reader over every float32) is the reference
+        tags.append("nonfinite-tempo")
+        model = r["modelx"]
+    if "ok" in model and beyond(model["ok"]["levels"]):
+        tags.append("beyond-2^52ms")        # outside the domain: not judged
+        return dict(ok=True, agree=agree, dom=False, wf=False, tags=tags, detail=detail, maxdev=0.0)
+    if impl[0] == "err":
         tags.append("impl-raises:" + impl[1])
         agree = "err" in model        # every exception is one class: the property is silent on ill-formed files
         if agree and model["err"] != impl[1]:
@@ -756,6 +916,7 @@ def judge(impl, r):
                     detail.setdefault("corr_levels", []).append([k, bad])
                 if vp:
                     tags.append("volpan-differs")
+    agree = agree and bool(r.get("xrefines", False))
     # ---- specification on the implementation's output
     ok = True
     if impl[0] == "ok":
@@ -796,7 +957,7 @@ def file_stats(case):
     """(nontrivial, tempo tag) of one file description"""
     nontrivial = False
     for l in case["levels"]:
-        tempo = sorted(p["m"] for p in l if p["ch"] == 1 and any(e != 0 for e in p["ev"]))
+        tempo = sorted(p["m"] for p in l if p["ch"] == 1 and any(fval(e) != 0 for e in p["ev"]))
         notes_m = [p["m"] for p in l if 2 <= p["ch"] <= 8 and any(e[0] != 0 for e in p["ev"])]
         if len(tempo) >= 2 and notes_m and max(notes_m) > tempo[1]:
             nontrivial = True
@@ -811,7 +972,7 @@ def file_stats(case):
                             st = True
                         elif e[0] != 0 and e[2] == 3:
                             st = False
-    ntempo = max([sum(1 for p in l if p["ch"] == 1 for e in p["ev"] if e != 0) for l in case["levels"]] + [0])
+    ntempo = max([sum(1 for p in l if p["ch"] == 1 for e in p["ev"] if fval(e) != 0) for l in case["levels"]] + [0])
     return nontrivial, "tempo%d" % min(ntempo, 3)
 
 
